@@ -525,7 +525,7 @@ pub fn exec(c: &mut Case, real: &mut BinArchive, model: &mut RefArchive, op: &Op
             }
         }
         if let (Ok(_), Some(t)) = (&res, tell_after) {
-            let expect = addr + width;
+            let expect = addr.wrapping_add(width);
             if t != expect {
                 c.fail("cursor", &format!("cursor:{}", opname), ctx(&format!("cursor moved from {} to {}, expected {}", addr, t, expect)));
                 ok = false;
